@@ -137,9 +137,13 @@ theorem builder_writeInt (b : Tlb.Builder) (t : Ideal) (h : BRel b t) (v : Int) 
     BAgree b (b.writeInt v n) ((Op.writeInt v n).spec t) := by
   have hn0 : ¬ n = 0 := by omega
   have hn1 : ¬ n = 1 := by omega
-  simp only [Tlb.Builder.writeInt, Tlb.Builder.intBitsGo, hn1, if_false, Op.spec, hn0]
+  -- robust against the repaired shape of `Builder.writeInt` (error branches for n = 0 / unrepresentable n = 1 first)
+  have key : b.writeInt v n = b.writeBits (decide (v < 0) :: natToBits (n - 1) (v % (2 : Int) ^ 64).toNat) := by
+    simp [Tlb.Builder.writeInt, Tlb.Builder.intBitsGo, hn0, hn1]
+  rw [key]
+  simp only [Op.spec, hn0, if_false]
   by_cases hrep : v < -(2 : Int) ^ (n - 1) ∨ v ≥ (2 : Int) ^ (n - 1)
-  · simp only [hrep, if_true]
+  · simp only [hrep, if_true, hn1, if_false]
     exact builder_writeBits b t h _
   · simp only [hrep, if_false]
     rw [← signbit_low_eq_intToBits v n (by omega) (by omega) (by omega) h64]
@@ -155,7 +159,11 @@ agent tlb, repairs the definition in this round; it holds for the stale definiti
       decide +kernel
 
 After the repair `BuilderWriteIntFull` below (no lower bound on the width) is provable by the proof of
-`builder_writeInt` plus the two cases n = 0 (both sides the same error) and n = 1. -/
+`builder_writeInt` plus the two cases n = 0 (both sides the same error) and n = 1. Agent tlb reports the repair on branch
+`tlb` (round4(13a)) together with its own refinement library `TongoProofs/Lemmas/TlbBitsRefine.lean` (namespace Tongo.Tlb:
+`writeInt_refines`, `builder_on_bitstring`, `slice_on_bitstring`, all writers and readers against `Tongo.op_refines`), which
+overlaps with Part 1 of this file and closes `BuilderWriteIntFull`; the cell-level part (BitsBridgeCell.lean), the C08
+reader part and the Fift part exist only here. -/
 
 /-- the statement the owner of `Tlb.Builder` should be able to prove after aligning `writeInt` with the repaired Go code -/
 def BuilderWriteIntFull : Prop :=
